@@ -72,12 +72,11 @@ def encode(h, hid, p=BN128, bl=8):
             if not op[1]: raise Unmodelled("empty gather")
             evs.append("gather " + ",".join(sp(s) for s in op[1]))
         elif k == "newrow":
-            if not op[2]: raise Unmodelled("empty row")
-            evs.append(f"newrow {nm.var(op[1], True)} " + ",".join(str(int(x)) for x in op[2]))
+            evs.append(f"newrow {nm.var(op[1], True)} " + (",".join(str(int(x)) for x in op[2]) or "e"))
         else: raise Unmodelled(f"operation {k}")
-    if not h["init"] or any(not r for r in h["init"]): raise Unmodelled("empty matrix / row")
-    init = "/".join(",".join(str(int(v)) for v in r) for r in h["init"])
-    line = f"A2|{hid}|p={p},bl={bl},res=8,ign=0|sec={1 if h['secret'] else 0};init={init}|" + ";".join(evs)
+    # a matrix without rows is `-`, a row without elements `e` (every index is outside an empty dimension)
+    init = "/".join(",".join(str(int(v)) for v in r) or "e" for r in h["init"]) or "-"
+    line = f"A2|{hid}|p={p},bl={bl},res=8,ign={1 if h.get('ign') else 0}|sec={1 if h['secret'] else 0};init={init}|" + ";".join(evs)
     return line, {f"v{n}": name for name, n in nm.vars.items()}
 
 
